@@ -11,12 +11,27 @@
        returns 0 when the family is unknown (prints nothing); otherwise prints
        (no newline) "ok" or "err <what> <code>" and returns 1.
 
-   Families and parameters (see gen/c07_hl_ops.txt):
-     belt-ecb|cbc|cfb|ctr|mac|dwp|che|kwp|hash|hmac|krp|bde|sde|fmt|wbl|pbkdf2,
-     bash-hash, bash-prg, bash-f, brng-ctr, brng-hmac, botp-hotp, botp-totp, botp-ocra,
-     bign-params, bign-keys, bign-sign, bign-kwrap, bign-id, bign96,
-     bels-m, bels-share, bake-kdf, bake-swu, bake-bmqv, bake-bsts, bake-bpace,
-     btok-cvc, btok-sm, btok-bauth, dstu, g12s, pfok, stb99
+   Families (first parameter is always the PRNG seed; see the comment above each hl_* function
+   for the remaining decimal parameters; ops are listed in gen/c07_hl_ops.txt):
+     belt-ecb belt-cbc belt-cfb belt-ctr belt-mac belt-dwp belt-che belt-kwp belt-wbl belt-hash
+     belt-hmac belt-krp belt-bde belt-sde belt-fmt belt-pbkdf2 belt-kexp
+     bash-hash bash-f bash-prg  brng-ctr brng-hmac  botp-hotp botp-totp botp-ocra
+     bels-std bels-val bels-genm0 bels-genmi bels-genmid bels-share
+     bign-params bign-keys bign-sign bign-kwrap bign-id bign96
+     bake-kdf bake-swu bake-bmqv bake-bsts bake-bpace  btok-cvc btok-sm btok-bauth
+     dstu g12s pfok stb99
+   rng parameters: 0 = prngCOMBOStepR (state of prngCOMBO_keep() octets),
+                   1 = brngCTRStepR   (state of brngCTR_keep() octets).
+
+   Ops that make the unchanged library abort although the calls are valid (kept OUT of
+   gen/c07_hl_ops.txt, they are findings, not harness errors):
+     hl bels-val * / hl bels-genm0 *          belsValM/belsGenM0: state of n + 1 + ppIsIrred_deep(n + 1)
+                                              octets is too small (words counted as octets,
+                                              ppIsIrred_deep omits ppGCD/ppSqrMod) -> heap overflow
+     hl botp-ocra <suite 7|8> ...             suite with S but without P, p == NULL: ASSERT in
+                                              botpOCRAStepS checks (p, s_len) instead of (s, s_len)
+     hl btok-bauth <l = 192|256> <kcb = 1>    btokBAuthCTStep4 reads l / 8 octets of Rt from
+                                              M2 = [8 + 16]in -> heap over-read (and key mismatch)
 */
 #ifndef BEE2V_C07_HL_H
 #define BEE2V_C07_HL_H
